@@ -231,6 +231,7 @@ theorem step_shape (d : D) (o : Op) (hk : isInstall o.kind = false) : Shape d (s
   · exact Or.inl ⟨rfl, rfl⟩
   · exact Or.inl ⟨rfl, rfl⟩
   · exact Or.inl ⟨rfl, rfl⟩
+  · exact Or.inl ⟨rfl, rfl⟩
   · rename_i h
     dsimp only
     rcases endBlock_shape d (o.int "time") (o.str "newstatus") (o.str "fcustatus") with h1 | h1
